@@ -12,6 +12,10 @@ def ayStep1 (mid : Nat) (d : Bytes) (m : Machine) : Machine :=
 theorem ayStep1_chip (mid : Nat) (d : Bytes) (m : Machine) : (ayStep1 mid d m).ayChip = m.ayChip := by
   unfold ayStep1; split <;> rfl
 
+theorem ayStep1_env (mid : Nat) (d : Bytes) (m : Machine) :
+    (ayStep1 mid d m).ayEnvAtStart = m.ayEnvAtStart := by
+  unfold ayStep1; split <;> rfl
+
 /-- `szxAY` on a full-length chunk, spelled out -/
 theorem szxAY_eq (fx : Fixes) (mid : Nat) (d : Bytes) (m : Machine) (hl : d.length = 18) :
     szxAY fx mid d m = some (if (ayStep1 mid d m).ayEnabled
@@ -27,12 +31,14 @@ theorem szxAY_eq (fx : Fixes) (mid : Nat) (d : Bytes) (m : Machine) (hl : d.leng
 theorem aySetRegs_all (m : Machine) (v : Byte) (regs : Bytes) :
     ((m.aySelect v).aySetRegs Fixes.all regs).ayChip = chipProgram m.ayChip regs ∧
     ((m.aySelect v).aySetRegs Fixes.all regs).ayRegs = regs.take 16 ∧
-    ((m.aySelect v).aySetRegs Fixes.all regs).aySel = (v &&& 0x0F).toNat := by
-  simp [Machine.aySetRegs, Machine.aySelect, Fixes.all]
+    ((m.aySelect v).aySetRegs Fixes.all regs).aySel = (v &&& 0x0F).toNat ∧
+    ((m.aySelect v).aySetRegs Fixes.all regs).ayEnvAtStart = true := by
+  simp [Machine.aySetRegs, Machine.aySelect, Fixes.all, envProgram_true]
 
 theorem aySetRegs_none (m : Machine) (v : Byte) (regs : Bytes) :
     ((m.aySelect v).aySetRegs Fixes.none regs).ayChip = m.ayChip ∧
-    ((m.aySelect v).aySetRegs Fixes.none regs).ayRegs = regs.take 16 := by
+    ((m.aySelect v).aySetRegs Fixes.none regs).ayRegs = regs.take 16 ∧
+    ((m.aySelect v).aySetRegs Fixes.none regs).ayEnvAtStart = m.ayEnvAtStart := by
   simp [Machine.aySetRegs, Machine.aySelect, Fixes.none]
 
 
